@@ -24,7 +24,7 @@ META = {
              'tensor/channel-wise x INT/FLOAT x compute precision x '
              'explicit_dequantize x 2 algorithms, each tried as a specific-op '
              'update and under "*"; (ii) for EVERY accepted pair k generated '
-             'single-op models (k = 3 quick, 24 thorough; shapes, bias/no '
+             'single-op models (k = 3 quick, 80 thorough; shapes, bias/no '
              'bias, constant or runtime second operand) go through the whole '
              'pipeline and the interpreter and are held to the C06/C07 bounds. '
              'Non-trivial = accepted pairs (refused ones are counted '
@@ -266,7 +266,7 @@ def kf_addsub_output_scale(spec, violation):
 
 def phases(tier):
   big = tier == 'thorough'
-  k = 24 if big else 3
+  k = 80 if big else 3
   return [
       {'name': 'acceptance', 'kind': 'enum', 'items': acceptance_items, 'run': run_acceptance},
       {'name': 'soundness', 'kind': 'enum', 'items': lambda: soundness_items(k), 'run': run_soundness},
